@@ -1,1 +1,576 @@
-//! Controlled runtime (scheduler) for the concurrent BGZF components.
+//! vrt: controlled runtime for the concurrent BGZF components (CHESS-style baton scheduler).
+//!
+//! Controlled threads are real OS threads, but exactly one runs between two scheduling points.
+//! A scheduling point is every channel operation, spawn, join, task start and channel-end drop
+//! performed through `noodles_bgzf::verif` (the cfg(noodles_verif) shim). Which enabled thread
+//! runs next is a choice of the explorer (`vmc::Chooser`), bounded by preemptions or delays.
+
+use std::{
+    any::Any,
+    cell::RefCell,
+    future::Future,
+    panic::{self, AssertUnwindSafe},
+    pin::pin,
+    sync::{
+        Arc, Condvar, Mutex, MutexGuard,
+        atomic::{AtomicBool, Ordering},
+    },
+    task::{Context, Poll, Wake, Waker},
+};
+
+use noodles_bgzf::verif::{self, Runtime, SpawnKind};
+use vmc::{
+    Chooser, Class,
+    explore::{Abort, take_last_panic},
+};
+
+#[derive(Clone, Copy, Debug, PartialEq, Eq)]
+pub enum CostModel {
+    /// Switching away from a still-enabled running thread costs 1; other switches are free.
+    Preempt,
+    /// Choosing the i-th thread in canonical order costs i (no free branching).
+    Delay,
+}
+
+#[derive(Clone, Copy, Debug)]
+pub struct RtConfig {
+    pub pool_size: usize,
+    pub cost: CostModel,
+    /// Maximum number of scheduling steps per execution (livelock guard).
+    pub horizon: usize,
+}
+
+impl RtConfig {
+    pub fn new(pool_size: usize, cost: CostModel) -> Self {
+        Self {
+            pool_size,
+            cost,
+            horizon: 20_000,
+        }
+    }
+}
+
+#[derive(Clone, Copy)]
+struct ReadyPtr(*const (dyn Fn() -> bool + 'static));
+unsafe impl Send for ReadyPtr {}
+
+enum St {
+    Start,
+    Running,
+    AtPoint { label: &'static str, ready: ReadyPtr },
+    Finished,
+}
+
+struct Th {
+    st: St,
+    kind: SpawnKind,
+    cv: Arc<Condvar>,
+}
+
+struct State {
+    threads: Vec<Th>,
+    current: Option<usize>,
+    running_pool: usize,
+    steps: usize,
+    done: bool,
+    aborted: bool,
+    deadlock: Option<String>,
+    horizon_hit: bool,
+    thread_panics: Vec<String>,
+    handles: Vec<OsDone>,
+    spawned: [usize; 3],
+    trace: Vec<(usize, &'static str)>,
+}
+
+pub struct Sched {
+    m: Mutex<State>,
+    main_cv: Condvar,
+    ch: Chooser,
+    cfg: RtConfig,
+    me: std::sync::Weak<Sched>,
+    /// Finished flags live outside `m` so that `ready` predicates can read them while the
+    /// scheduling thread holds the state lock.
+    fin: Mutex<Vec<bool>>,
+}
+
+thread_local! {
+    static MY: RefCell<Option<(Arc<Sched>, usize)>> = const { RefCell::new(None) };
+}
+
+/// What happened in one controlled execution besides the body's own result.
+#[derive(Debug, Default, Clone)]
+pub struct RunInfo {
+    pub deadlock: Option<String>,
+    pub horizon_hit: bool,
+    /// Panics that happened inside controlled threads other than the main one.
+    pub thread_panics: Vec<String>,
+    pub steps: usize,
+    pub threads: usize,
+    pub spawned_threads: usize,
+    pub spawned_pool_tasks: usize,
+    pub spawned_blocking: usize,
+    /// Sequence of (thread id, label) in execution order (the schedule).
+    pub schedule: Vec<(usize, &'static str)>,
+}
+
+impl RunInfo {
+    pub fn schedule_string(&self) -> String {
+        let mut s = String::new();
+        for (i, (t, l)) in self.schedule.iter().enumerate() {
+            if i > 0 {
+                s.push(' ');
+            }
+            s.push_str(&format!("T{t}:{l}"));
+        }
+        s
+    }
+}
+
+impl Sched {
+    fn lock(&self) -> MutexGuard<'_, State> {
+        self.m.lock().unwrap_or_else(|e| e.into_inner())
+    }
+
+    fn addr(&self) -> usize {
+        self as *const _ as usize
+    }
+
+    fn my_id(&self) -> Option<usize> {
+        MY.try_with(|m| {
+            m.borrow()
+                .as_ref()
+                .and_then(|(s, id)| if s.addr() == self.addr() { Some(*id) } else { None })
+        })
+        .ok()
+        .flatten()
+    }
+
+    fn abort(&self, st: &mut State) {
+        st.aborted = true;
+        for t in &st.threads {
+            t.cv.notify_all();
+        }
+        self.main_cv.notify_all();
+    }
+
+    /// Picks the next thread to run. `me` is the calling thread if it is still a candidate.
+    fn schedule_next(&self, st: &mut State, me: Option<usize>) {
+        let mut enabled: Vec<usize> = Vec::new();
+        for (i, t) in st.threads.iter().enumerate() {
+            let ok = match &t.st {
+                St::Start => t.kind != SpawnKind::PoolTask || st.running_pool < self.cfg.pool_size,
+                St::AtPoint { ready, .. } => unsafe { (*ready.0)() },
+                St::Running | St::Finished => false,
+            };
+            if ok {
+                enabled.push(i);
+            }
+        }
+        let me_enabled = match me {
+            Some(m) => {
+                if let Some(p) = enabled.iter().position(|&x| x == m) {
+                    enabled.remove(p);
+                    enabled.insert(0, m);
+                    true
+                } else {
+                    false
+                }
+            }
+            None => false,
+        };
+        if enabled.is_empty() {
+            if st.threads.iter().all(|t| matches!(t.st, St::Finished)) {
+                st.done = true;
+                st.current = None;
+                self.main_cv.notify_all();
+            } else {
+                let mut d = String::new();
+                for (i, t) in st.threads.iter().enumerate() {
+                    let s = match &t.st {
+                        St::Start => "not-started".to_string(),
+                        St::Running => "running".to_string(),
+                        St::AtPoint { label, .. } => format!("blocked@{label}"),
+                        St::Finished => continue,
+                    };
+                    d.push_str(&format!("T{i}({:?}):{s} ", t.kind));
+                }
+                st.deadlock = Some(d.trim_end().to_string());
+                self.abort(st);
+            }
+            return;
+        }
+        st.steps += 1;
+        if st.steps > self.cfg.horizon {
+            st.horizon_hit = true;
+            self.abort(st);
+            return;
+        }
+        let i = if enabled.len() == 1 {
+            0
+        } else {
+            let class = match self.cfg.cost {
+                CostModel::Preempt => Class::Preempt,
+                CostModel::Delay => Class::Delay,
+            };
+            self.ch
+                .choose_full("sched", enabled.len(), class, me_enabled)
+        };
+        let next = enabled[i];
+        let label = match &st.threads[next].st {
+            St::AtPoint { label, .. } => *label,
+            St::Start => "start",
+            _ => "?",
+        };
+        st.trace.push((next, label));
+        if matches!(st.threads[next].st, St::Start)
+            && st.threads[next].kind == SpawnKind::PoolTask
+        {
+            st.running_pool += 1;
+        }
+        st.current = Some(next);
+        st.threads[next].cv.notify_all();
+    }
+
+    fn bail(&self, guard: MutexGuard<'_, State>) {
+        drop(guard);
+        if !std::thread::panicking() {
+            panic::panic_any(Abort);
+        }
+    }
+}
+
+impl Runtime for Sched {
+    fn point(&self, label: &'static str, ready: &dyn Fn() -> bool) {
+        let Some(me) = self.my_id() else {
+            return;
+        };
+        let mut st = self.lock();
+        if st.done {
+            return;
+        }
+        if st.aborted {
+            return self.bail(st);
+        }
+        // SAFETY: the closure outlives this call, and it is only evaluated while this thread is
+        // parked inside this call.
+        let ready: ReadyPtr = ReadyPtr(unsafe {
+            std::mem::transmute::<*const (dyn Fn() -> bool + '_), *const (dyn Fn() -> bool + 'static)>(
+                ready as *const _,
+            )
+        });
+        st.threads[me].st = St::AtPoint { label, ready };
+        self.schedule_next(&mut st, Some(me));
+        let cv = st.threads[me].cv.clone();
+        while st.current != Some(me) && !st.aborted {
+            st = cv.wait(st).unwrap_or_else(|e| e.into_inner());
+        }
+        if st.aborted {
+            st.threads[me].st = St::Running;
+            return self.bail(st);
+        }
+        st.threads[me].st = St::Running;
+    }
+
+    fn spawn(&self, kind: SpawnKind, f: Box<dyn FnOnce() + Send + 'static>) -> usize {
+        let sched = self.me.upgrade().expect("scheduler gone");
+        let id;
+        {
+            let mut st = self.lock();
+            id = st.threads.len();
+            st.threads.push(Th {
+                st: St::Start,
+                kind,
+                cv: Arc::new(Condvar::new()),
+            });
+            st.spawned[match kind {
+                SpawnKind::Thread => 0,
+                SpawnKind::PoolTask => 1,
+                SpawnKind::Blocking => 2,
+            }] += 1;
+            let s2 = sched.clone();
+            let h = spawn_os(Box::new(move || s2.thread_main(id, kind, f)));
+            st.handles.push(h);
+        }
+        self.point("spawn", &|| true);
+        id
+    }
+
+    fn is_finished(&self, id: usize) -> bool {
+        self.finished_flag(id)
+    }
+
+    fn pool_size(&self) -> usize {
+        self.cfg.pool_size
+    }
+}
+
+impl Sched {
+    fn finished_flag(&self, id: usize) -> bool {
+        let g = self.fin.lock().unwrap_or_else(|e| e.into_inner());
+        g.get(id).copied().unwrap_or(false)
+    }
+
+    fn set_finished(&self, id: usize) {
+        let mut g = self.fin.lock().unwrap_or_else(|e| e.into_inner());
+        if g.len() <= id {
+            g.resize(id + 1, false);
+        }
+        g[id] = true;
+    }
+
+    fn thread_main(self: Arc<Self>, id: usize, kind: SpawnKind, f: Box<dyn FnOnce() + Send>) {
+        vmc::explore::install_panic_hook();
+        verif::install(Some(self.clone() as Arc<dyn Runtime>));
+        MY.with(|m| *m.borrow_mut() = Some((self.clone(), id)));
+        let run = {
+            let mut st = self.lock();
+            let cv = st.threads[id].cv.clone();
+            while st.current != Some(id) && !st.aborted {
+                st = cv.wait(st).unwrap_or_else(|e| e.into_inner());
+            }
+            if st.aborted {
+                false
+            } else {
+                st.threads[id].st = St::Running;
+                true
+            }
+        };
+        let _ = take_last_panic();
+        let mut panic_msg = None;
+        if run {
+            let r = panic::catch_unwind(AssertUnwindSafe(f));
+            if let Err(p) = r {
+                if p.downcast_ref::<Abort>().is_none() {
+                    panic_msg = Some(take_last_panic().unwrap_or_else(|| payload_msg(&p)));
+                }
+            } else if let Some(m) = take_last_panic() {
+                // a panic happened on this thread and was caught by the subject's own wrapper
+                panic_msg = Some(m);
+            }
+        } else {
+            // dropping the closure may run channel-end drops; they return immediately when aborted
+            let r = panic::catch_unwind(AssertUnwindSafe(move || drop(f)));
+            let _ = r;
+        }
+        let mut st = self.lock();
+        if let Some(m) = panic_msg {
+            st.thread_panics.push(format!("T{id}({kind:?}): {m}"));
+        }
+        if run && kind == SpawnKind::PoolTask {
+            st.running_pool -= 1;
+        }
+        st.threads[id].st = St::Finished;
+        self.set_finished(id);
+        if !st.aborted {
+            self.schedule_next(&mut st, None);
+        }
+        drop(st);
+        verif::install(None);
+        MY.with(|m| *m.borrow_mut() = None);
+    }
+}
+
+// OS threads are recycled across executions: creating and destroying ~5 threads per execution on 16
+// explorer workers is dominated by mmap/munmap contention otherwise.
+type Job = Box<dyn FnOnce() + Send + 'static>;
+
+struct OsDone(Arc<(Mutex<bool>, Condvar)>);
+
+impl OsDone {
+    fn wait(&self) {
+        let (m, cv) = &*self.0;
+        let mut g = m.lock().unwrap_or_else(|e| e.into_inner());
+        while !*g {
+            g = cv.wait(g).unwrap_or_else(|e| e.into_inner());
+        }
+    }
+}
+
+static IDLE: Mutex<Vec<std::sync::mpsc::Sender<(Job, OsDone)>>> = Mutex::new(Vec::new());
+
+fn spawn_os(job: Job) -> OsDone {
+    let done = OsDone(Arc::new((Mutex::new(false), Condvar::new())));
+    let d2 = OsDone(done.0.clone());
+    let mut msg = Some((job, d2));
+    loop {
+        let tx = IDLE.lock().unwrap_or_else(|e| e.into_inner()).pop();
+        match tx {
+            Some(tx) => match tx.send(msg.take().unwrap()) {
+                Ok(()) => return done,
+                Err(e) => msg = Some(e.0),
+            },
+            None => break,
+        }
+    }
+    let (tx, rx) = std::sync::mpsc::channel::<(Job, OsDone)>();
+    tx.send(msg.take().unwrap()).unwrap();
+    std::thread::Builder::new()
+        .name("vrt-os".into())
+        .stack_size(1 << 20)
+        .spawn(move || {
+            while let Ok((job, done)) = rx.recv() {
+                let _ = panic::catch_unwind(AssertUnwindSafe(job));
+                // make this thread available again before signalling completion
+                IDLE.lock().unwrap_or_else(|e| e.into_inner()).push(tx.clone());
+                let (m, cv) = &*done.0;
+                *m.lock().unwrap_or_else(|e| e.into_inner()) = true;
+                cv.notify_all();
+            }
+        })
+        .expect("spawn OS thread");
+    done
+}
+
+fn payload_msg(p: &Box<dyn Any + Send>) -> String {
+    if let Some(s) = p.downcast_ref::<&str>() {
+        s.to_string()
+    } else if let Some(s) = p.downcast_ref::<String>() {
+        s.clone()
+    } else {
+        "<non-string panic>".into()
+    }
+}
+
+/// Runs `body` as controlled thread 0 under a fresh scheduler. Returns the body's value (None if it
+/// was unwound by an aborted execution) and what the scheduler saw. A real panic of the body is
+/// re-raised after all controlled threads were wound down.
+pub fn run<T>(ch: &Chooser, cfg: RtConfig, body: impl FnOnce() -> T) -> (Option<T>, RunInfo) {
+    let sched = Arc::new_cyclic(|me| Sched {
+        m: Mutex::new(State {
+            threads: vec![Th {
+                st: St::Running,
+                kind: SpawnKind::Thread,
+                cv: Arc::new(Condvar::new()),
+            }],
+            current: Some(0),
+            running_pool: 0,
+            steps: 0,
+            done: false,
+            aborted: false,
+            deadlock: None,
+            horizon_hit: false,
+            thread_panics: Vec::new(),
+            handles: Vec::new(),
+            spawned: [0; 3],
+            trace: Vec::new(),
+        }),
+        main_cv: Condvar::new(),
+        ch: ch.clone(),
+        cfg,
+        me: me.clone(),
+        fin: Mutex::new(Vec::new()),
+    });
+    let prev = MY.with(|m| m.borrow_mut().replace((sched.clone(), 0)));
+    verif::install(Some(sched.clone() as Arc<dyn Runtime>));
+
+    let r = panic::catch_unwind(AssertUnwindSafe(body));
+
+    let mut real_panic: Option<Box<dyn Any + Send>> = None;
+    let value = match r {
+        Ok(v) => Some(v),
+        Err(p) => {
+            if p.downcast_ref::<Abort>().is_none() {
+                real_panic = Some(p);
+            }
+            None
+        }
+    };
+
+    // thread 0 is finished; let the others run to completion
+    let handles = {
+        let mut st = sched.lock();
+        st.threads[0].st = St::Finished;
+        sched.set_finished(0);
+        if !st.aborted && !st.done {
+            sched.schedule_next(&mut st, None);
+        }
+        while !st.done && !st.aborted {
+            st = sched.main_cv.wait(st).unwrap_or_else(|e| e.into_inner());
+        }
+        std::mem::take(&mut st.handles)
+    };
+    verif::install(None);
+    MY.with(|m| *m.borrow_mut() = prev);
+    for h in handles {
+        h.wait();
+    }
+    // threads spawned during wind-down
+    loop {
+        let more = std::mem::take(&mut sched.lock().handles);
+        if more.is_empty() {
+            break;
+        }
+        for h in more {
+            h.wait();
+        }
+    }
+    let st = sched.lock();
+    let info = RunInfo {
+        deadlock: st.deadlock.clone(),
+        horizon_hit: st.horizon_hit,
+        thread_panics: st.thread_panics.clone(),
+        steps: st.steps,
+        threads: st.threads.len(),
+        spawned_threads: st.spawned[0],
+        spawned_pool_tasks: st.spawned[1],
+        spawned_blocking: st.spawned[2],
+        schedule: st.trace.clone(),
+    };
+    drop(st);
+    if let Some(p) = real_panic {
+        panic::resume_unwind(p);
+    }
+    (value, info)
+}
+
+struct FlagWaker(AtomicBool);
+
+impl Wake for FlagWaker {
+    fn wake(self: Arc<Self>) {
+        self.0.store(true, Ordering::SeqCst);
+    }
+    fn wake_by_ref(self: &Arc<Self>) {
+        self.0.store(true, Ordering::SeqCst);
+    }
+}
+
+/// Deterministic single-future executor. Must be called on a controlled thread (inside [`run`]).
+/// `Pending` with no wake-up ever arriving and no runnable thread is reported by the scheduler as
+/// a deadlock (lost wake-up).
+pub fn block_on<F: Future>(fut: F) -> F::Output {
+    let flag = Arc::new(FlagWaker(AtomicBool::new(false)));
+    let waker = Waker::from(flag.clone());
+    let mut cx = Context::from_waker(&waker);
+    let mut fut = pin!(fut);
+    let rt = current_runtime();
+    loop {
+        flag.0.store(false, Ordering::SeqCst);
+        match fut.as_mut().poll(&mut cx) {
+            Poll::Ready(v) => return v,
+            Poll::Pending => {
+                let f2 = flag.clone();
+                match &rt {
+                    Some(rt) => rt.point("exec.park", &move || f2.0.load(Ordering::SeqCst)),
+                    None => {
+                        if !flag.0.load(Ordering::SeqCst) {
+                            std::thread::yield_now();
+                        }
+                    }
+                }
+            }
+        }
+    }
+}
+
+fn current_runtime() -> Option<Arc<dyn Runtime>> {
+    MY.try_with(|m| m.borrow().as_ref().map(|(s, _)| s.clone() as Arc<dyn Runtime>))
+        .ok()
+        .flatten()
+}
+
+/// A scheduling point on the calling controlled thread (no-op outside a controlled execution).
+pub fn yield_point(label: &'static str, ready: &dyn Fn() -> bool) {
+    if let Some(rt) = current_runtime() {
+        rt.point(label, ready);
+    }
+}
